@@ -243,6 +243,139 @@ impl C04 {
         }
         st.nontrivial_shape(("wire", enc, case.anchors, case.outbound, case.fee % 3));
         st.sample = Some(json!({"case": case, "wire": enc}));
+
+        // commitment 1 with the case's HTLCs; amounts go over the wire in millisatoshi and need
+        // not be whole satoshis (BOLT-3 rounds an HTLC output down)
+        let payee = PublicKey::from_secret_key(&secp, &SecretKey::from_slice(&[5u8; 32]).unwrap());
+        for h in 0u8..4 {
+            pw.node().add_keysend(payee, phash(h), 20_000_000_000).expect("keysend");
+        }
+        let to_cp = [0u64, 20_000, value / 4][case.to_cp as usize % 3];
+        let mut budget = value.saturating_sub(to_cp + 20_000);
+        let (mut o, mut r): (Vec<Htlc>, Vec<Htlc>) = (vec![], vec![]);
+        for hs in case.htlcs.iter() {
+            let mut h = mk_htlc(hs);
+            if h.sat > budget {
+                continue;
+            }
+            budget -= h.sat;
+            if hs.offered {
+                h.h &= 1;
+                o.push(h);
+            } else {
+                h.h = (h.h & 1) | 2;
+                r.push(h);
+            }
+        }
+        let c1 = finish_content(case.anchors, value, FEERATES[case.fee as usize % 3], to_cp, o, r);
+        let subs = [0u64, 500, 1, 999];
+        let mut wire_htlcs = vec![];
+        let mut any_sub = false;
+        for (list, side) in [(&c1.offered, vls_protocol::model::Htlc::LOCAL), (&c1.received, vls_protocol::model::Htlc::REMOTE)] {
+            for (k, h) in list.iter().enumerate() {
+                let sub = subs[(k + case.dbid as usize) % 4];
+                any_sub |= sub != 0;
+                wire_htlcs.push(vls_protocol::model::Htlc { side, amount: h.sat * 1000 + sub, payment_hash: vls_protocol::model::Sha256(phash(h.h).0), ctlv_expiry: h.cltv });
+            }
+        }
+        let chan = &pw.chans[ci];
+        let p1 = chan.cp.point(&secp, 1);
+        let msg = Message::SignRemoteCommitmentTx2(msgs::SignRemoteCommitmentTx2 {
+            remote_per_commitment_point: PubKey(p1.serialize()),
+            commitment_number: 1,
+            feerate: c1.feerate,
+            to_local_value_sat: c1.to_holder,
+            to_remote_value_sat: c1.to_cp,
+            htlcs: vls_protocol::serde_bolt::Array(wire_htlcs),
+        });
+        let rep = pw.request(To::Chan(ci), msg);
+        st.class(format!("wire:enc{}:sign1:{}", enc, rep.tag()));
+        let Out::Ok(rep) = rep else { return Ok(()) };
+        let Some(rep) = rep.as_any().downcast_ref::<msgs::SignCommitmentTxWithHtlcsReply>() else {
+            return ctx.report(st, Violation::new("C04:wire:unexpected-reply", "SignRemoteCommitmentTx2 was not answered with SignCommitmentTxWithHtlcsReply".to_string()));
+        };
+        let chan = &pw.chans[ci];
+        let reftx = chan.ref_cp_commitment(&secp, 1, &p1, &c1);
+        let canonical = reftx.trust().built_transaction().transaction.clone();
+        let sig_ok = Signature::from_compact(&rep.signature.signature.0).map(|s| secp.verify_ecdsa(&chan.commitment_sighash(&canonical), &s, &chan.holder_pubkeys.funding_pubkey).is_ok()).unwrap_or(false);
+        if !sig_ok {
+            return ctx.report(st, Violation::new(
+                "C04:wire:commit-sig-not-over-reference-tx:with-htlcs",
+                format!("{:?}: the signature for commitment 1 ({} HTLCs, amounts in msat {}) does not verify against the BOLT-3 transaction of the request", case, c1.offered.len() + c1.received.len(), if any_sub { "not all whole satoshis" } else { "whole satoshis" }),
+            ));
+        }
+        let holder_htlc_pub = lightning_signer::lightning::ln::channel_keys::HtlcKey::from_basepoint(&secp, &chan.holder_pubkeys.htlc_basepoint, &p1).to_public_key();
+        let shs = chan.htlc_sighashes(&reftx, false, chan.htlc_sighash_type());
+        if shs.len() != rep.htlc_signatures.0.len() {
+            return ctx.report(st, Violation::new("C04:wire:htlc-sig-count", format!("{:?}: {} HTLC signatures for {} HTLCs", case, rep.htlc_signatures.0.len(), shs.len())));
+        }
+        for (k, ((_, m), s)) in shs.iter().zip(rep.htlc_signatures.0.iter()).enumerate() {
+            let ok = Signature::from_compact(&s.signature.0).map(|s| secp.verify_ecdsa(m, &s, &holder_htlc_pub).is_ok()).unwrap_or(false);
+            if !ok {
+                return ctx.report(st, Violation::new("C04:wire:htlc-sig-not-over-reference-tx", format!("{:?}: HTLC signature {} of commitment 1 does not verify against the reference HTLC transaction", case, k)));
+            }
+        }
+        if !shs.is_empty() {
+            st.class(if any_sub { "wire:sign1:htlcs-with-sub-satoshi-amounts" } else { "wire:sign1:htlcs-whole-satoshis" });
+            st.nontrivial_shape(("wire1", enc, case.anchors, case.outbound, shs.len().min(3), any_sub));
+        }
+
+        // the raw-transaction request for the same commitment (a retry): the canonical transaction,
+        // or a transaction field with one mutation next to an untouched PSBT of the canonical one
+        let ws = witscripts(chan, &secp, &reftx, false);
+        let mk_htlcs = || {
+            let mut v = vec![];
+            for (list, side) in [(&c1.offered, vls_protocol::model::Htlc::LOCAL), (&c1.received, vls_protocol::model::Htlc::REMOTE)] {
+                for h in list.iter() {
+                    v.push(vls_protocol::model::Htlc { side, amount: h.sat * 1000, payment_hash: vls_protocol::model::Sha256(phash(h.h).0), ctlv_expiry: h.cltv });
+                }
+            }
+            vls_protocol::serde_bolt::Array(v)
+        };
+        let which = case.dbid % 4;
+        let (sighash1, funding_pk, remote_fk) = (chan.commitment_sighash(&canonical), chan.holder_pubkeys.funding_pubkey, chan.setup.counterparty_points.funding_pubkey);
+        let mut sent = canonical.clone();
+        let mname = match which {
+            0 => "canonical",
+            1 => {
+                sent.lock_time = lightning_signer::bitcoin::absolute::LockTime::from_consensus(sent.lock_time.to_consensus_u32() ^ 1);
+                "locktime"
+            }
+            2 => {
+                sent.input[0].sequence = lightning_signer::bitcoin::Sequence(sent.input[0].sequence.0 ^ 1);
+                "sequence"
+            }
+            _ => {
+                let last = sent.output.len() - 1;
+                sent.output[last].value = sent.output[last].value + lightning_signer::bitcoin::Amount::from_sat(1);
+                "output-value"
+            }
+        };
+        let msg = Message::SignRemoteCommitmentTx(msgs::SignRemoteCommitmentTx {
+            tx: vls_protocol::serde_bolt::WithSize(sent),
+            psbt: vls_protocol::serde_bolt::WithSize(crate::props::proto::psbt_with_witscripts(&canonical, &ws)),
+            remote_funding_key: PubKey(remote_fk.serialize()),
+            remote_per_commitment_point: PubKey(p1.serialize()),
+            option_static_remotekey: true,
+            commitment_number: 1,
+            htlcs: mk_htlcs(),
+            feerate: c1.feerate,
+        });
+        let rep = pw.request(To::Chan(ci), msg);
+        st.class(format!("wire:phase1:{}:{}", mname, rep.tag()));
+        if let Out::Ok(rep) = rep {
+            if which != 0 {
+                return ctx.report(st, Violation::new(
+                    format!("C04:wire:phase1:accepted-noncanonical-transaction:{}", mname),
+                    format!("{:?}: SignRemoteCommitmentTx whose transaction field differs from the canonical commitment ({}) next to a PSBT of the canonical one was answered with a signature", case, mname),
+                ));
+            }
+            let ok = rep.as_any().downcast_ref::<msgs::SignTxReply>().and_then(|r| Signature::from_compact(&r.signature.signature.0).ok()).map(|s| secp.verify_ecdsa(&sighash1, &s, &funding_pk).is_ok()).unwrap_or(false);
+            if !ok {
+                return ctx.report(st, Violation::new("C04:wire:phase1:commit-sig-not-over-reference-tx", format!("{:?}: the signature returned for the canonical transaction does not verify against it", case)));
+            }
+        }
+        st.nontrivial_shape(("wire-phase1", enc, mname, case.anchors, shs.len().min(2)));
         Ok(())
     }
 }
